@@ -16,7 +16,7 @@ import (
 func init() { register("C18", c18) }
 
 func c18(p *an.Prog, r *an.R, tier string) {
-	r.Explanation = "C18 (structural clauses): shard pre-selection drops a shard only when none of its repositories satisfies the filter, and rewrites the filter only when every selected shard is known to satisfy it completely; the repository predicate used for pre-selection reads the same query and repository fields as the per-shard evaluation of the same atom (index.indexData.simplify); a BranchesRepos filter is replaced by an exact branch filter only when it has a single branch entry; typeRepoSearcher overrides every query-taking method of the streamer, evaluates type:repo first and forwards the evaluated query; it replaces only type:repo nodes and lists their child; List stores a copy of the first entry of a repository and adds the statistics of every further one. Does NOT decide the equality of results with per-shard search for given shard sets and queries (which repositories satisfy which filter, branch names, compound shard composition are values)."
+	r.Explanation = "C18 (structural clauses): shard pre-selection drops a shard only when none of its repositories satisfies the filter, and rewrites the filter only when every selected shard is known to satisfy it completely; the repository predicate used for pre-selection reads the same query and repository fields as the per-shard evaluation of the same atom (index.indexData.simplify); a BranchesRepos filter is replaced by an exact branch filter only when it has a single branch entry; typeRepoSearcher overrides every query-taking method of the streamer, evaluates type:repo first and forwards the evaluated query; it replaces only type:repo nodes and lists their child; List stores a copy of the first entry of a repository and adds the statistics of every further one. (R7) a type:repo node is replaced only through the List call for its own child; (R5) siblings agree on comma-ok vs plain lookups of repository map fields. Does NOT decide the equality of results with per-shard search for given shard sets and queries (which repositories satisfy which filter, branch names, compound shard composition are values)."
 	c18Select(p, r)
 	c18Siblings(p, r)
 	c18TypeRepo(p, r)
